@@ -100,7 +100,8 @@ type FuncContract struct {
 	Params   []QVar // for extern/spec
 	Results  []QVar
 	// Guards: static guard clauses (guards.go)
-	Guards []*GuardClause
+	Guards  []*GuardClause
+	Callers []*CallersClause
 	// MoreFiles: further contract files that add clauses to this function
 	MoreFiles []string
 }
@@ -149,7 +150,7 @@ func NewContractSet() *ContractSet {
 }
 
 var clauseKeywords = map[string]bool{
-	"func": true, "extern": true, "spec": true, "axiom": true, "type": true, "lemma": true, "guarded": true, "go_inline": true, "preserves": true,
+	"func": true, "extern": true, "spec": true, "axiom": true, "type": true, "lemma": true, "guarded": true, "guarded_where": true, "go_inline": true, "static_only": true, "only_callers": true, "preserves": true,
 	"requires": true, "ensures": true, "loop": true, "nullable": true, "at": true,
 	"ghost": true, "assigns": true, "modular": true, "inline": true, "trusted": true,
 	"mode": true, "alloc_bound": true, "pure": true, "protected_by": true, "immutable": true,
@@ -484,11 +485,22 @@ func (cs *ContractSet) ParseContractFile(path string, pkgPath string) error {
 				}
 				cur.Flags["preserves"] += strings.TrimSpace(rest)
 				cs.Trusted = append(cs.Trusted, fmt.Sprintf("trusted frame of %s: preserves %s (%s:%d)", cur.Key, strings.TrimSpace(rest), path, l.no))
-			case "guarded":
+			case "only_callers":
+				cc, err := parseCallersClause(rest)
+				if err != nil {
+					return fmt.Errorf("%s:%d: %v", path, l.no, err)
+				}
+				cur.Callers = append(cur.Callers, cc)
+			case "static_only":
+				// static_only Cnn [Cmm ...]: while one of these properties is checked, only the static clauses of this
+				// function are evaluated (no symbolic execution of its body); other properties are unaffected
+				cur.Flags["static_only"] = strings.TrimSpace(cur.Flags["static_only"] + " " + rest)
+			case "guarded", "guarded_where":
 				g, err := parseGuardClause(rest, path, l.no)
 				if err != nil {
 					return fmt.Errorf("%s:%d: %v", path, l.no, err)
 				}
+				g.Selective = word == "guarded_where"
 				cur.Guards = append(cur.Guards, g)
 			case "trusted":
 				cur.Flags["trusted"] = "1"
